@@ -246,36 +246,7 @@ func offsList(rs []*rec) string {
 }
 
 // epochCheck judges the recovered leader-epoch history against the records present.
-func (c *c05) epochCheck(clause string) {
-	h := c.h1
-	if h.stop {
-		return
-	}
-	eps := h.log.leaderEpochCache.epochOffsets
-	h.oc.Checks++
-	for i, e := range eps {
-		if i > 0 && (e.leaderEpoch <= eps[i-1].leaderEpoch || e.startOffset < eps[i-1].startOffset) {
-			h.fail(clause, clause+"/epoch-order", "epoch cache not ordered: %s", epochList(eps))
-			return
-		}
-		if e.startOffset > h.next-1 && !(len(h.model) == 0) {
-			h.fail(clause, clause+"/epoch-beyond-end", "epoch %d starts at %d beyond the log end %d: %s", e.leaderEpoch, e.startOffset, h.next-1, epochList(eps))
-			return
-		}
-	}
-	for _, r := range h.model {
-		for _, e := range eps {
-			if e.startOffset < r.off && e.leaderEpoch > r.epoch {
-				h.fail(clause, clause+"/epoch-mismatch", "record %d has epoch %d but the cache says epoch %d began at %d: %s", r.off, r.epoch, e.leaderEpoch, e.startOffset, epochList(eps))
-				return
-			}
-			if e.startOffset > r.off && e.leaderEpoch <= r.epoch {
-				h.fail(clause, clause+"/epoch-mismatch", "record %d already has epoch %d but the cache says epoch %d begins only at %d: %s", r.off, r.epoch, e.leaderEpoch, e.startOffset, epochList(eps))
-				return
-			}
-		}
-	}
-}
+func (c *c05) epochCheck(clause string) { c.h1.epochCheck(clause, false) }
 
 func epochList(eps []*epochOffset) string {
 	s := ""
